@@ -62,6 +62,8 @@ def _chunk(jobs):
     out = []
     for sd, route, tier in jobs:
         S = gs.gen_schema(sd)
+        if sd % 3 == 0:
+            S = gs.with_redefined_directive(S, random.Random(sd))
         viol = []
         try:
             s = build_schema(gs.to_sdl(S)) if route == "sdl" else gs.to_objects(S)
